@@ -10,7 +10,9 @@ Record pcase := mkCase {
   c_innm : bool;
   c_mflag : list nat;            (* nodes flagged as under maintenance in the netmap *)
   c_ans : list (nat * nat);      (* node -> 0 has | 1 not found | 2 maintenance | 3 error (default) *)
-  c_rep : list nat;              (* nodes that accept a replica *)
+  c_rep : list (nat * nat);      (* node -> what it does with a replication request:
+                                    0 stores | 1 maintenance status | 2 other failure status |
+                                    3 transport failure (default) | 4 no client for the node *)
   c_readable : bool;
   c_ty : nat;                    (* 0 REGULAR 1 TOMBSTONE 2 LOCK 3 LINK *)
   c_ec : option (nat * nat);
@@ -36,6 +38,12 @@ Fixpoint assoc (n : nat) (l : list (nat * nat)) (d : nat) : nat :=
 Definition answer_of (k : nat) : answer :=
   match k with 0 => Has | 1 => NotFound | 2 => Maint | _ => Err end.
 
+Definition repans_of (k : nat) : repans :=
+  match k with 0 => RStored | 1 => RMaint | 2 => RStatus | 4 => RNoConn | _ => RFail end.
+
+(* the node stored the object (reference side: read from the case input, not from the model) *)
+Definition stored_b (c_rep : list (nat * nat)) (n : nat) : bool := Nat.eqb (assoc n c_rep 3) 0.
+
 Definition type_of (k : nat) : otype :=
   match k with 0 => Regular | 1 => Tombstone | 2 => Lock | _ => Link end.
 
@@ -43,7 +51,7 @@ Definition env_of (c : pcase) : env :=
   mkEnv (c_local c) (c_innm c)
         (fun n => memb n (c_mflag c))
         (fun n => answer_of (assoc n (c_ans c) 3))
-        (fun n => memb n (c_rep c))
+        (fun n => repans_of (assoc n (c_rep c) 3))
         (c_readable c).
 
 Definition mark_code (m : mark) : nat := match m with MDefault => 0 | MRedundant => 1 end.
@@ -77,7 +85,7 @@ Definition model_ok_fx (fx : bool) (c : pcase) : bool :=
 (* confirmed holder: header actually read OK, or replication reported and accepted *)
 Definition confirmed_b (c : pcase) (n : nat) : bool :=
   (memb n (o_heads c) && Nat.eqb (assoc n (c_ans c) 3) 0)
-  || (memb n (o_succ c) && memb n (c_rep c)).
+  || (memb n (o_succ c) && stored_b (c_rep c) n).
 
 Fixpoint dedup (l : list nat) : list nat :=
   match l with
@@ -127,7 +135,7 @@ Definition ref_ec_ok (c : pcase) : bool :=
 (* replicator: never more successes than asked for, only for nodes that stored *)
 Definition ref_repl_ok (c : pcase) : bool :=
   Nat.leb (length (o_succ c)) (fold_right (fun t a => fst t + a) 0 (o_tasks c))
-  && forallb (fun n => memb n (c_rep c) && memb n (o_sends c)) (o_succ c).
+  && forallb (fun n => stored_b (c_rep c) n && memb n (o_sends c)) (o_succ c).
 
 Definition ref_ok (c : pcase) : bool :=
   negb (o_panic c)
